@@ -350,7 +350,7 @@ class Canon:
 
     def _not(self, v):
         if v[0] == 'cmp':
-            return ('cmp', NEGATE[v[1]], v[2], v[3]) if v[1] in NEGATE else ('not', v)
+            return self._cmp(NEGATE[v[1]], v[2], v[3]) if v[1] in NEGATE else ('not', v)
         if v[0] == 'not':
             return v[1]
         if v[0] == 'bool':
